@@ -25,6 +25,7 @@ PROFILES = {
     'guards-lo': dict(BASE, pInjCancel=40, pGuardCancel=40, pGuardIssue=400, pIssue=20, maxBatch=1),
     'history':   dict(BASE, pGuardCancel=100, pGuardIssue=150, wReset=1, wExitEnter=1, replica=1),
     'replica':   dict(BASE, pGuardCancel=60, pGuardIssue=40, pIssue=20, maxBatch=2, replica=1, kinds=0x4f),
+    'replica-enter': dict(BASE, pGuardCancel=20, pGuardIssue=250, pIssue=20, maxBatch=2, replica=1, kinds=0x4f, wExitEnter=20, wReset=2),      # many re-activations whose guards redirect: replayEnter()
     'order':     dict(BASE, pConsume=120, pGuardCancel=50, pGuardIssue=30, wReact=8, wQuery=5, wUpdate=6),
     'order-lo':  dict(BASE, pConsume=25, wReact=8, wQuery=5, wUpdate=6),
     'serial':    dict(BASE, wSaveLoad=35, pGuardCancel=40, pGuardIssue=30, wExitEnter=2, wReset=1),
@@ -62,7 +63,7 @@ SHAPE_PROPS = {
     'C06': dict(profiles=['plans'], title='plans'),
     'C07': dict(profiles=['plans-edit', 'plans'], title='plan storage'),
     'C08': dict(profiles=['serial'], title='save/load'),
-    'C09': dict(profiles=['history', 'replica', 'single'], title='history'),
+    'C09': dict(profiles=['history', 'replica', 'replica-enter', 'single'], title='history'),
     'C11': dict(profiles=['ordinary', 'burst', 'alloc', 'memcheck'], title='memory safety / UB / assertions / allocation', flavours={'quick': ['clang-asan', 'gcc'], 'thorough': ['clang-asan', 'gcc-asan', 'gcc', 'clang-dev', 'gcc-O2']}),
     'C12': dict(profiles=['utility', 'utility-hostile', 'utility-fine'], title='utility / random selection'),
     'C16': dict(profiles=['mirror', 'mirror-idle', 'mirror-plans', 'mirror-fine', 'mirror-serial'], title='logger / structure report', flavours={'quick': ['gcc', 'clang', 'clang-vlog'], 'thorough': ['gcc', 'clang', 'clang-vlog', 'gcc17', 'clang-dev']}),
